@@ -30,6 +30,11 @@ fn skippable(text: &str, from: usize, to: usize, le: &str) -> bool {
 
 /// C01: find in-order, non-overlapping slices of `text` that explain `lines`.
 pub fn match_lines(text: &str, o: &Opts, lines: &[Cow<'_, str>]) -> Result<Vec<Span>, String> {
+    match_lines_opt(text, o, lines, false)
+}
+
+/// `no_trailing_space`: only accept explanations in which no slice ends in a space
+pub fn match_lines_opt(text: &str, o: &Opts, lines: &[Cow<'_, str>], no_trailing_space: bool) -> Result<Vec<Span>, String> {
     let le = o.le();
     let base = text.as_ptr() as usize;
     // candidate bodies per line
@@ -63,8 +68,10 @@ pub fn match_lines(text: &str, o: &Opts, lines: &[Cow<'_, str>]) -> Result<Vec<S
                 Cow::Owned(_) => return Err(format!("line {} {:?} has no indent and no inserted hyphen but is not borrowed", k, line)),
             }
         }
-        v.push(Cand { body: rest, hyphen: false, fixed });
-        if may_hyphen {
+        if !(no_trailing_space && rest.ends_with(' ')) {
+            v.push(Cand { body: rest, hyphen: false, fixed });
+        }
+        if may_hyphen && !(no_trailing_space && rest[..rest.len() - 1].ends_with(' ')) {
             v.push(Cand { body: &rest[..rest.len() - 1], hyphen: true, fixed: None });
         }
         cands.push(v);
@@ -111,14 +118,18 @@ pub fn match_lines(text: &str, o: &Opts, lines: &[Cow<'_, str>]) -> Result<Vec<S
 pub fn c01_slices(c: &TextCase) -> Outcome {
     let o = &c.opts;
     let lines = wrap(&c.text, o.options());
-    let spans = match_lines(&c.text, o, &lines)?;
-    // a slice never ends in a space, except when break_words cut a word containing a space (Unicode separator only)
-    for (k, s) in spans.iter().enumerate() {
-        let body = &c.text[s.a..s.b];
-        if body.ends_with(' ') && !(o.sep == Sep::Unicode && o.break_words) {
-            return Err(format!("slice {} {:?} ends in a space; lines={:?}", k, body, lines));
+    // a slice never ends in a space, except when break_words cut a word that itself contains a space (Unicode separator only):
+    // where the exception cannot apply, only explanations without such slices are accepted
+    let strict = !(o.sep == Sep::Unicode && o.break_words);
+    let spans = match match_lines_opt(&c.text, o, &lines, strict) {
+        Ok(s) => s,
+        Err(e) => {
+            return Err(match match_lines_opt(&c.text, o, &lines, false) {
+                Ok(_) => format!("a slice ends in a space: every way to read {:?} as indent + in-order slices of the input needs a slice with a trailing space", lines),
+                Err(_) => e,
+            })
         }
-    }
+    };
     // fill = the same lines joined
     let filled = fill(&c.text, o.options());
     let joined = lines.join(o.le());
